@@ -693,7 +693,7 @@ func GenFragType(r *rand.Rand, depth int) string {
 		case 0:
 			return "TypeReference[" + sq(fragString(r)) + "]"
 		case 1:
-			return []string{"Foo", "My::Thing", "Catalogentry", "A::B", "Foo::Bar"}[r.Intn(5)]
+			return []string{"Foo", "My::Thing", "Catalogentry", "My::Other", "Foo::Bar"}[r.Intn(5)]
 		case 2:
 			return []string{"Foo", "My::Thing", "Typereference"}[r.Intn(3)] + "[" + sq(fragString(r)) + "]"
 		case 3:
